@@ -430,11 +430,58 @@ fn block_from(v: &Value) -> hk::DecodedDctBlock {
 /// {"op":"idct","set":NAME,"blocks":[{"k":"full|dc|horiz|vert|zero","c":[64 ints row-major v*8+u]}..]}
 /// Each block is transformed alone by idct_channel, once over an 8x8 output pre-filled with 0 and once
 /// pre-filled with 255 (so the signed residual is observable through the unsigned, clipped output).
+/// With "batch": true all blocks go through ONE idct_channel call, laid out "per_line" blocks to a row
+/// (so whatever the transform carries from block to block inside a call is exercised); the event has
+/// the same form, one 64-sample output per block.
 pub fn idct(cmd: &Value) -> Value {
     let mut ev = cmd.clone();
     let blocks = cmd["blocks"].as_array().cloned().unwrap_or_default();
-    run_idct(&mut ev, &blocks);
+    if cmd["batch"].as_bool().unwrap_or(false) && !blocks.is_empty() {
+        let per_line = (cmd["per_line"].as_u64().unwrap_or(blocks.len() as u64) as usize).clamp(1, blocks.len());
+        run_idct_batch(&mut ev, &blocks, per_line);
+    } else {
+        run_idct(&mut ev, &blocks);
+    }
     ev
+}
+
+fn run_idct_batch(ev: &mut Value, blocks: &[Value], per_line: usize) {
+    let r = guarded(|| {
+        let rows = (blocks.len() + per_line - 1) / per_line;
+        let mut blks: Vec<hk::DecodedDctBlock> = blocks.iter().map(block_from).collect();
+        while blks.len() < rows * per_line {
+            blks.push(hk::DecodedDctBlock::Zero);
+        }
+        let width = per_line * 8;
+        let mut outs = Vec::new();
+        for fill in [0u8, 255u8] {
+            let mut plane = vec![fill; width * rows * 8];
+            hk::idct_channel(&blks, &mut plane, per_line, width);
+            let mut per_block = Vec::new();
+            for k in 0..blocks.len() {
+                let (bx, by) = (k % per_line, k / per_line);
+                let mut out = Vec::with_capacity(64);
+                for y in 0..8 {
+                    for x in 0..8 {
+                        out.push(plane[(by * 8 + y) * width + bx * 8 + x]);
+                    }
+                }
+                per_block.push(out);
+            }
+            outs.push(per_block);
+        }
+        let b = outs.pop().unwrap();
+        let a = outs.pop().unwrap();
+        (a, b)
+    });
+    match r {
+        Ok((a, b)) => {
+            ev["ret"] = json!("ok");
+            ev["out0"] = json!(a);
+            ev["out255"] = json!(b);
+        }
+        Err(m) => ev["ret"] = json!(format!("panic:{}", m)),
+    }
 }
 
 fn run_idct(ev: &mut Value, blocks: &[Value]) {
